@@ -380,6 +380,15 @@ def prefixed_array(ctx, shape, count, sentinel=False):
                   _prefixes_raise(T, out, ctxarg=cx))
 
 
+def varnum(ctx):
+    """VarInt / VarLong as scalar wire types (the full treatment is C03):
+    canonical LEB128, size, and decode(encode(n)) == n on [0, 2^64)"""
+    from . import c03
+    r = c03.send_canonical(ctx, hi_bits=64)
+    note_key(ctx, 'C02:VarInt/VarLong')
+    return r
+
+
 def instances(tier, seed):
     out = []
     for tname in INTS:
@@ -387,6 +396,8 @@ def instances(tier, seed):
         out.append(Instance(tname + ':decode', 'integer_decode',
                             {'tname': tname}, W=96))
     out.append(Instance('Boolean', 'boolean', {}, W=96))
+    out.append(Instance('VarInt/VarLong', 'varnum', {}, W=96,
+                        max_decisions=400))
     for tname in ('Float', 'Double'):
         out.append(Instance(tname, 'floating', {'tname': tname}, W=96,
                             budget_s=900))
